@@ -59,6 +59,10 @@ type Cluster struct {
 	IDs   []uint64
 	mu    sync.Mutex
 	seq   int
+	// Misrouted lists contributions that a node addressed to another endpoint than the one configured for the
+	// participant the share was computed for. They are recorded and not delivered (the sender sees an error): delivering
+	// them where they are addressed can make an instance call itself while it holds its own locks.
+	Misrouted []string
 	// Intercept (optional) is consulted for every message before delivery.
 	Intercept func(m *Msg) Action
 	// CommitReply (optional) may tamper with a commit reply.
@@ -342,6 +346,16 @@ func (s *clusterSender) SendContribution(_ context.Context, peer *core.Endpoint,
 		return s.c.Virtual(s.from.ID, peer.ID, account, secret, vvec)
 	}
 	m := &Msg{Secret: &secret, VVec: append([]bls.PublicKey{}, vvec...)}
+	if peer.Name != nodeName(peer.ID) {
+		for id, n := range s.c.Nodes {
+			if n.Name == peer.Name && id != peer.ID {
+				s.c.mu.Lock()
+				s.c.Misrouted = append(s.c.Misrouted, fmt.Sprintf("instance %d sent the contribution it computed for participant %d to %s:%d, which is instance %d", s.from.ID, peer.ID, peer.Name, peer.Port, id))
+				s.c.mu.Unlock()
+				return bls.SecretKey{}, nil, errors.New("contribution addressed to another instance than its owner")
+			}
+		}
+	}
 	act, dst, err := s.pre("contribute", peer.ID, m)
 	if err != nil {
 		return bls.SecretKey{}, nil, err
